@@ -44,6 +44,33 @@ theorem history_sorted_multiset (c : Nat) (hc : 1 ≤ c) (ac : Bool) (h : List C
     HistorySpec ac h (run (init c ac) (histOps h)).2 :=
   history_from_fresh hc h (init_fresh c ac) hwf
 
+/-- **A cycle abandoned with `Clear` before `Finalise`** (fourth wave; seeded change C13-m7 made the
+    harness generate them).  On a sorter that is ready for a cycle, any number of pushes - staying
+    in the chunk or spilling run files - followed by `Clear`: every `Push` returns nil with `Len` =
+    `Pos` = the number pushed so far, `Clear` returns nil with `Len` = `Pos` = 0, and the sorter is
+    ready for a cycle again (`Fresh`: no file registered, empty chunk, no error) - the pushed values
+    are discarded, so by `history_from_fresh` every later cycle delivers its own multiset only. -/
+theorem abandoned_cycle_fresh {c : Nat} {ac : Bool} (hc : 1 ≤ c) {s : State} (h : Fresh c ac 0 s) (es : List Elem) :
+    (run s (es.map Op.push ++ [Op.clear])).2
+        = (List.range es.length).map (fun i => (⟨.ok, none, i + 1, i + 1⟩ : Out)) ++ [⟨.ok, none, 0, 0⟩]
+    ∧ Fresh c ac 0 (run s (es.map Op.push ++ [Op.clear])).1 := by
+  obtain ⟨ch', hout, hfill⟩ := pushes_run hc es h.filling
+  have hclean : Clean (run s (es.map Op.push)).2 := by
+    rw [hout]; intro o ho
+    simp only [List.mem_map] at ho
+    obtain ⟨i, _, rfl⟩ := ho
+    simp
+  rw [run_append _ _ _ hclean]
+  have hf : Fresh c ac 0 (clear (run s (es.map Op.push)).1) :=
+    clear_fresh_of hfill.cs hfill.ac (by rw [hfill.pool]; omega) (by intro _; rw [hfill.chunk]; simp)
+  constructor
+  · simp [hout, run, step_clear, hf.len, hf.pos]
+  · simpa [run, step_clear] using hf
+
+/-- non-vacuity: chunk size 2, three pushes (one run file written) then `Clear` -/
+example : (run (init 2 true) ([⟨3,0⟩, ⟨1,0⟩, ⟨2,0⟩].map Op.push ++ [Op.clear])).1.files.length = 0
+    ∧ (run (init 2 true) ([⟨3,0⟩, ⟨1,0⟩, ⟨2,0⟩].map Op.push)).1.files.length = 1 := by decide
+
 /-- non-vacuity: a memory-only cycle with a partial drain, then a spilling cycle (the shape of
     the two defects repaired for C11), then an AutoClear-closed cycle, is well-formed -/
 example : wellFormed true
